@@ -132,6 +132,35 @@ def r1(ctx):
             ctx.check(ok and w16, "C19.R1", "ipv6-longest-output", "%s:%d" % (fn.relfile, fn.line),
                       "format strings %s; hex groups are 16-bit values: %s => at most 40 bytes incl. NUL" % (fmts, w16), key="C19.R1:ipv6:formats")
     ctx.floor("C19.R1", n, 5)
+    # IPv4 text is the four bytes most significant first: where the formatter hands byte extractions of the address to one printf-style
+    # call, their order is decided (digits produced by arithmetic of the library's own are values, not shape: not decided)
+    fn = pdb.fn("lrtr_ipv4_addr_to_str")
+    ADDR = ("load", ("fld", ("arg", 0), "lrtr_ipv4_addr.addr"))
+
+    def shift_of(e, at, depth=0):
+        if e[0] == "load" and e[1][0] in ("idx", "alloca") and depth < 2:
+            st_ = vf.reaching_store(fn, e[1], at)
+            return shift_of(vf.expr(fn, st_["val"]), at, depth + 1) if st_ is not None else None
+        if e[0] == "bin" and e[1] == "and" and e[3] == ("c", 255):
+            e = e[2]
+        if e == ADDR:
+            return 0
+        if e[0] == "bin" and e[1] in ("lshr", "ashr") and e[2] == ADDR and e[3][0] == "c":
+            return e[3][1]
+        return None
+    for c in fn.calls(("snprintf", "sprintf")):
+        k0 = 3 if c.callee == "snprintf" else 2
+        fe = vf.expr(fn, c.args[k0 - 1])
+        g = pdb.glob_in(fn.unit, fe[1]) if fe[0] == "g" else None
+        fmt = g["init"].get("str") if g and isinstance(g.get("init"), dict) else None
+        import re as _re
+        if fmt is None or not _re.match(r"^(%(hh|h)?[ud]\.){3}%(hh|h)?[ud]$", fmt):
+            continue
+        shifts = [shift_of(vf.expr(fn, a), c) for a in c.args[k0:]]
+        if len(shifts) != 4 or None in shifts:
+            continue
+        ctx.check(shifts == [24, 16, 8, 0], "C19.R1", "ipv4-bytes-most-significant-first", c.loc(),
+                  "format %s is given the address shifted right by %s (expected 24, 16, 8, 0)" % (fmt, shifts), key="C19.R1:ipv4:byte-order")
     # dispatcher passes buffer and length through unchanged
     fn = pdb.fn("lrtr_ip_addr_to_str")
     ctx.touch(fn)
@@ -412,6 +441,10 @@ WITNESSES = [
      "old": "\tif (len < INET6_ADDRSTRLEN)\n\t\treturn -1;\n\tconst uint32_t *a = ip_addr->addr;", "new": "\tif (len < 16)\n\t\treturn -1;\n\tconst uint32_t *a = ip_addr->addr;"},
     {"id": "C19.w2-sprintf-in-ipv4-formatter", "rule": "C19.R1", "file": V4,
      "old": "\tif (snprintf(str, len, \"%hhu.%hhu.%hhu.%hhu\", buff[0], buff[1], buff[2], buff[3]) < 0)", "new": "\tif (sprintf(str, \"%hhu.%hhu.%hhu.%hhu\", buff[0], buff[1], buff[2], buff[3]) < 0)"},
+    {"id": "C19.w2b-ipv4-bytes-least-significant-first", "rule": "C19.R1", "file": V4,
+     "old": "\tif (snprintf(str, len, \"%hhu.%hhu.%hhu.%hhu\", buff[0], buff[1], buff[2], buff[3]) < 0)", "new": "\tif (snprintf(str, len, \"%hhu.%hhu.%hhu.%hhu\", buff[3], buff[2], buff[1], buff[0]) < 0)"},
+    {"id": "C19.w2c-ipv4-second-byte-shift", "rule": "C19.R1", "file": V4,
+     "old": "\tbuff[1] = ip->addr >> 16 & 0xff;", "new": "\tbuff[1] = ip->addr >> 8 & 0xff;"},
     {"id": "C19.w3-undo-F16-short-ipv6-accepted", "rule": "C19.R2", "file": V6,
      "old": "\t} else if (i != 8) {\n\t\t/* without :: all eight groups must be present */\n\t\treturn -1;\n\t}\n", "new": "\t}\n"},
     {"id": "C19.w4-parser-uses-static-scratch", "rule": "C19.R2", "file": V4,
